@@ -253,6 +253,32 @@ def main(ctx):
         judge_session(ctx, r, [b'd' * 33], f'wire {ecs}/{esc}',
                       {'module': 'Wire', 'enc': ecs + '/' + esc})
         ctx.count(('wire2', ecs, esc))
+    # DIFFERENT algorithms per direction (a raw peer sends per-direction
+    # lists in its KEXINIT; asyncssh itself always sends the same list
+    # twice): every ordered pair of compression methods (delayed / not
+    # delayed mixed), and mixed cipher / MAC families; either role under test
+    cmps = ['none', 'zlib', 'zlib@openssh.com']
+    asyms = [{'cmp': ([a], [b])} for a in cmps for b in cmps]
+    asyms += [{'enc': (['aes128-ctr'], ['chacha20-poly1305@openssh.com']),
+               'mac': (['hmac-sha2-256'], ['hmac-sha1'])},
+              {'enc': (['aes256-gcm@openssh.com'], ['aes128-cbc']),
+               'mac': (['hmac-sha1'], ['hmac-sha2-512-etm@openssh.com']),
+               'cmp': (['zlib@openssh.com'], ['none'])},
+              {'enc': (['3des-cbc'], ['aes256-ctr']),
+               'mac': (['umac-64@openssh.com'], ['hmac-md5']),
+               'cmp': (['zlib'], ['zlib@openssh.com'])}]
+    pl = [b'a' * 5, b'b' * 300, b'', b'c' * 17, bytes(range(256)) * 5]
+    for asym in asyms:
+        kw = {}
+        for key, opt in (('enc', 'encryption_algs'), ('mac', 'mac_algs')):
+            if key in asym:
+                kw[opt] = list(asym[key][0]) + list(asym[key][1])
+        for role in 'sc':
+            r = T.run_asym_session(role, asym, pl, kw=kw)
+            judge_session(ctx, r, pl, f'per-direction algorithms {asym} '
+                          f'(endpoint under test: {role})',
+                          {'module': 'Wire', 'asym': str(asym), 'role': role})
+            ctx.count(('asym', role, str(asym)), nontrivial=True)
     # sequence numbers near 2^16 and 2^32: wrap and MAC input width
     for enc, mac in (('aes128-ctr', 'hmac-sha2-256'),
                      ('aes128-cbc', 'hmac-sha1-etm@openssh.com'),
